@@ -492,7 +492,7 @@ PROP = Property(
           "request; distinct = (mode, API, value)."),
     strategy=strategy,
     run_case=run_case,
-    budgets={"quick": 1600, "thorough": 400000},
+    budgets={"quick": 1600, "thorough": 16000},
     assumptions=[
         "the sandbox runs as root (negative nice, RT I/O class allowed)",
         "soft > hard and RLIMIT_NOFILE above fs.nr_open are the kernel's own "
